@@ -33,6 +33,11 @@ Theorem C05_revert_partition :
 Proof. exact flat_revert_partition. Qed.
 Print Assumptions C05_revert_partition.
 
+Example C05_revert_instance :
+  let d := fun i j => if Nat.eqb i j then 0 else if (i + j =? 1) then 1 else 5 in
+  revert (flat Nat.leb (fun l => fold_right Nat.min 9 l) d 3 2) = [(0, 1); (1, 1); (2, 3)].
+Proof. vm_compute. reflexivity. Qed.
+
 (* on return one cluster is left, or no two clusters have linkage <= threshold;
    for every total preorder on the carrier (single, complete and average linkage alike) *)
 Theorem C05_terminal :
